@@ -245,6 +245,8 @@ def inline_dict(F, d, crate, inline_ids, flat_cache, stack=()):
 
 def _splice(nd, bb, c, cid, assigns, gm):
     """replace the call terminating block bb of nd by the body dict c; assigns = [(callee parameter local, caller operand)]"""
+    nd.setdefault('spliced', [])
+    nd['spliced'] = list(nd['spliced']) + [cid]
     term = nd['blocks'][bb]['term']
     off_l, off_b = len(nd['locals']), len(nd['blocks'])
     nd['locals'] += [dict(l, ty=_subst_ty(l['ty'], gm)) for l in c['locals']]
@@ -303,6 +305,18 @@ def flatten(F, inline_ids):
             nb = Body(G, b.crate, b.d)
             nb.unit, nb.unit_is_test = b.unit, b.unit_is_test
             G.bodies[i] = nb
+    # a closure whose body went into its parent (consumer / combinator rewritten, or called inside an inlined helper) is represented there;
+    # as a separate body it would be judged without the context it is used in
+    gone = set()
+    for b in G.bodies.values():
+        for cid in b.d.get('spliced', []):
+            cb_ = F.bodies.get(cid)
+            if cb_ is not None and cb_.kind == 'Closure':
+                gone.add(cid)
+    for cid in gone:
+        # keep closures that contain closures / are parents themselves out of the removal only if nothing else hangs below them
+        if cid in G.bodies and not any(x.parent == cid for x in G.bodies.values()):
+            del G.bodies[cid]
     G._by_path = defaultdict(list)
     for b in G.bodies.values():
         G._by_path[b.path].append(b)
@@ -408,14 +422,30 @@ def thread_dict(d, max_region=16):
         # the switch operand: a bool local, or `dl = discr(x)` computed in T itself
         x, kind = None, None
         dd = [(bb, k, si) for bb, k, si in defs.get(dl, [])]
-        if len(dd) == 1 and dd[0][0] == T and dd[0][1] == 'stmt':
+        if len(dd) == 1 and dd[0][0] == T and dd[0][1] == 'stmt' and blk['stmts'][dd[0][2]]['rv']['k'] == 'discr':
             rv = blk['stmts'][dd[0][2]]['rv']
             if rv['k'] == 'discr' and not rv['pl']['p']:
                 x, kind = rv['pl']['l'], 'variant'
-                if any(s['k'] != 'a' or s['p']['l'] != dl for s in blk['stmts']):
-                    x = None  # T computes more than the discriminant
+                # besides the discriminant T may only set other plain locals from constants / copies (drop flags): those statements are
+                # kept in the copies
+                for s_ in blk['stmts']:
+                    if s_['k'] != 'a' or s_['p']['p']:
+                        x = None
+                        break
+                    if s_['p']['l'] == dl:
+                        continue
+                    if s_['rv']['k'] != 'use' or s_['p']['l'] == rv['pl']['l']:
+                        x = None
+                        break
         elif len(dd) >= 1 and not blk['stmts'] and d['locals'][dl]['ty'] == 'bool':
             x, kind = dl, 'bool'
+        elif len(dd) == 1 and dd[0][0] == T and dd[0][1] == 'stmt' and d['locals'][dl]['ty'] == 'bool':
+            # `if flag` compiled as `tmp = copy flag; switch tmp` in T, next to drop-flag bookkeeping
+            rv = blk['stmts'][dd[0][2]]['rv']
+            o_ = (rv.get('op') or {}).get('c') or (rv.get('op') or {}).get('m') if rv['k'] == 'use' else None
+            if o_ is not None and not o_['p'] and d['locals'][o_['l']]['ty'] == 'bool' and all(
+                    s_['k'] == 'a' and not s_['p']['p'] and s_['p']['l'] != o_['l'] and s_['rv']['k'] in ('use', 'discr') for s_ in blk['stmts']):
+                x, kind = o_['l'], 'bool'
         if x is None:
             continue
         # follow a copy made on the way (`x = move y` right before): handled by treating y's defs when x has one copy-def
@@ -520,7 +550,7 @@ def thread_dict(d, max_region=16):
                 blocks.append(nb)
             tb = dict(blocks[T])
             if kind == 'variant':
-                tb['stmts'] = []  # the copy does not test anything: no second definition of the discriminant temporary
+                tb['stmts'] = [s_ for s_ in tb['stmts'] if s_['p']['l'] != dl]  # the copy does not test anything: no second definition of the discriminant temporary
             tb['term'] = {'k': 'goto', 't': arm}
             tb['dup_of'] = T
             blocks.append(tb)
@@ -885,7 +915,24 @@ def desugar_dict(F, d, flat_cache=None):
 # (on Option and Result). `map`, `map_err`, `then` stay calls: the rules know them as value-preserving adaptors.
 # ------------------------------------------------------------------------------------------------------------
 
-COMBINATORS = ('unwrap_or_else', 'or_else', 'and_then', 'map_or', 'map_or_else')
+def _mutates(cd):
+    """does this (closure) body write through a reference or hand a `&mut` to a call?"""
+    for blk in cd['blocks']:
+        if blk['cleanup']:
+            continue
+        for s_ in blk['stmts']:
+            if s_['k'] == 'a' and s_['p']['p']:
+                return True
+        t = blk['term']
+        if t['k'] == 'call':
+            for a in t.get('args', []):
+                pl = a.get('m') or a.get('c')
+                if pl is not None and not pl['p'] and cd['locals'][pl['l']]['ty'].startswith('&mut'):
+                    return True
+    return False
+
+
+COMBINATORS = ('unwrap_or_else', 'or_else', 'and_then', 'map_or', 'map_or_else', 'map', 'map_err', 'is_some_and', 'is_none_or', 'is_ok_and', 'is_err_and')
 
 
 def desugar_combinators_dict(F, d):
@@ -898,6 +945,90 @@ def desugar_combinators_dict(F, d):
         fn = t['f']['fn']
         name = fn.get('name')
         head = (fn.get('impl_self') or '').split('<')[0]
+        if name == 'branch' and (fn.get('trait') or '') == 'std::ops::Try' and len(t['args']) == 1 and not t['dest']['p']:
+            # `x?`: the ControlFlow that Try::branch builds, written out, so that the variant of x decides the way on
+            st_ = (fn.get('self_ty') or '')
+            h_ = st_.split('<')[0]
+            ap = t['args'][0].get('m') or t['args'][0].get('c')
+            if h_ in ('std::option::Option', 'std::result::Result') and ap is not None and not ap['p']:
+                if nd is None:
+                    nd = dict(d)
+                    nd['locals'] = list(d['locals'])
+                    nd['blocks'] = [dict(b_, stmts=list(b_['stmts'])) for b_ in d['blocks']]
+                B, L = nd['blocks'], nd['locals']
+                ln = t.get('fl', blk.get('tln', 0))
+                is_r = h_.endswith('Result')
+                adt_ = h_
+                pv, pi = ('Ok', 0) if is_r else ('Some', 1)
+                L.append({'ty': 'isize'})
+                dsc = len(L) - 1
+                L.append({'ty': st_})
+                resid = len(L) - 1
+
+                def mk(stmts, term):
+                    B.append({'cleanup': False, 'stmts': stmts, 'term': term, 'tln': ln, 'synth': True})
+                    return len(B) - 1
+
+                def asg(l, rv):
+                    return {'k': 'a', 'p': {'l': l, 'p': []}, 'rv': rv, 'ln': ln, 'synth': True}
+                pay = {'m': {'l': ap['l'], 'p': [{'d': pv, 'i': pi}, {'f': 0, 'n': '0', 'a': adt_}]}}
+                pos = mk([asg(t['dest']['l'], {'k': 'aggr', 'ak': {'adt': 'std::ops::ControlFlow', 'variant': 'Continue', 'vi': 0}, 'ops': [pay]})], {'k': 'goto', 't': t['t']})
+                if is_r:
+                    rbuild = asg(resid, {'k': 'aggr', 'ak': {'adt': adt_, 'variant': 'Err', 'vi': 1}, 'ops': [{'m': {'l': ap['l'], 'p': [{'d': 'Err', 'i': 1}, {'f': 0, 'n': '0', 'a': adt_}]}}]})
+                else:
+                    rbuild = asg(resid, {'k': 'aggr', 'ak': {'adt': adt_, 'variant': 'None', 'vi': 0}, 'ops': []})
+                neg = mk([rbuild, asg(t['dest']['l'], {'k': 'aggr', 'ak': {'adt': 'std::ops::ControlFlow', 'variant': 'Break', 'vi': 1}, 'ops': [{'m': {'l': resid, 'p': []}}]})], {'k': 'goto', 't': t['t']})
+                B[bb] = dict(B[bb], stmts=B[bb]['stmts'] + [asg(dsc, {'k': 'discr', 'pl': {'l': ap['l'], 'p': []}, 'ty': adt_ + '<_>'})],
+                             term={'k': 'switch', 'op': {'m': {'l': dsc, 'p': []}}, 'arms': [[str(pi), pos]], 'otherwise': neg})
+            continue
+        if head == 'bool' and name in ('then_some', 'then') and len(t['args']) == 2 and not t['dest']['p']:
+            # `cond.then_some(v)` / `cond.then(|| v)`: Some under cond, None otherwise
+            cur = nd or d
+            bp = t['args'][0].get('m') or t['args'][0].get('c')
+            fcb_, fk_ = (None, None)
+            if name == 'then':
+                fcb_, fk_ = _callable_of(F, cur, t['args'][1])
+                if fcb_ is None:
+                    continue
+            if bp is None or bp['p']:
+                continue
+            if nd is None:
+                nd = dict(d)
+                nd['locals'] = list(d['locals'])
+                nd['blocks'] = [dict(b_, stmts=list(b_['stmts'])) for b_ in d['blocks']]
+            B, L = nd['blocks'], nd['locals']
+            ln = t.get('fl', blk.get('tln', 0))
+            T_, dl_ = t['t'], t['dest']['l']
+
+            def mk2(stmts, term):
+                B.append({'cleanup': False, 'stmts': stmts, 'term': term, 'tln': ln, 'synth': True})
+                return len(B) - 1
+
+            def asg2(l, rv):
+                return {'k': 'a', 'p': {'l': l, 'p': []}, 'rv': rv, 'ln': ln, 'synth': True}
+            none_b = mk2([asg2(dl_, {'k': 'aggr', 'ak': {'adt': 'std::option::Option', 'variant': 'None', 'vi': 0}, 'ops': []})], {'k': 'goto', 't': T_})
+            if name == 'then_some':
+                some_b = mk2([asg2(dl_, {'k': 'aggr', 'ak': {'adt': 'std::option::Option', 'variant': 'Some', 'vi': 1}, 'ops': [t['args'][1]]})], {'k': 'goto', 't': T_})
+            else:
+                L.append({'ty': fcb_.d['locals'][0]['ty']})
+                tmp_ = len(L) - 1
+                wrap_ = mk2([asg2(dl_, {'k': 'aggr', 'ak': {'adt': 'std::option::Option', 'variant': 'Some', 'vi': 1}, 'ops': [{'m': {'l': tmp_, 'p': []}}]})], {'k': 'goto', 't': T_})
+                stm_, asn_ = [], []
+                if fk_ == 'closure':
+                    envty = fcb_.d['locals'][1]['ty'] if len(fcb_.d['locals']) > 1 else ''
+                    cpl = t['args'][1].get('m') or t['args'][1].get('c')
+                    if envty.startswith('&'):
+                        L.append({'ty': envty})
+                        r_ = len(L) - 1
+                        stm_.append(asg2(r_, {'k': 'ref', 'mut': envty.startswith('&mut'), 'pl': {'l': cpl['l'], 'p': cpl['p']}}))
+                        asn_.append((1, {'m': {'l': r_, 'p': []}}))
+                    else:
+                        asn_.append((1, t['args'][1]))
+                some_b = mk2(stm_, {'k': 'call', 'f': {'fn': {'path': fcb_.d.get('path', ''), 'id': fcb_.id, 'krate': fcb_.crate, 'local': True, 'name': fcb_.name, 'gargs': []}},
+                                    'args': [], 'dest': {'l': tmp_, 'p': []}, 'dest_ty': fcb_.d['locals'][0]['ty'], 't': wrap_, 'uw': -2, 'fl': ln, 'fx': False})
+                _splice(nd, some_b, fcb_.d, fcb_.id, asn_, {})
+            B[bb] = dict(B[bb], term={'k': 'switch', 'op': {'m': {'l': bp['l'], 'p': []}}, 'arms': [['0', none_b]], 'otherwise': some_b})
+            continue
         if name not in COMBINATORS or head not in ('std::option::Option', 'std::result::Result') or t['dest']['p']:
             continue
         cur = nd or d
@@ -922,6 +1053,8 @@ def desugar_combinators_dict(F, d):
         fcb, fkind = _callable_of(F, cur, fop)
         if fcb is None:
             continue
+        if name in ('map', 'map_err') and not _mutates(fcb.d):
+            continue  # only a closure with side effects on its surroundings; a pure projection / conversion stays a call: the rules know `map` / `map_err` as value-preserving adaptors
         dcb, dkind = (None, None)
         if dop is not None:
             dcb, dkind = _callable_of(F, cur, dop)
@@ -989,9 +1122,36 @@ def desugar_combinators_dict(F, d):
         elif name == 'map_or':
             pos = call_into(fcb, fkind, fop, [payload(pos_name, pos_vi)], dl, T)
             neg = new_block([assign(dl, {'k': 'use', 'op': default_op})], goto_T)
-        else:  # map_or_else
+        elif name == 'map_or_else':
             pos = call_into(fcb, fkind, fop, [payload(pos_name, pos_vi)], dl, T)
             neg = call_into(dcb, dkind, dop, [payload('Err', 1)] if is_res else [], dl, T)
+        elif name == 'map':
+            tmp = new_local(fcb.d['locals'][0]['ty'])
+            wrap = new_block([assign(dl, {'k': 'aggr', 'ak': {'adt': adt, 'variant': pos_name, 'vi': pos_vi}, 'ops': [{'m': {'l': tmp, 'p': []}}]})], goto_T)
+            pos = call_into(fcb, fkind, fop, [payload(pos_name, pos_vi)], tmp, wrap)
+            if is_res:
+                neg = new_block([assign(dl, {'k': 'aggr', 'ak': {'adt': adt, 'variant': 'Err', 'vi': 1}, 'ops': [payload('Err', 1)]})], goto_T)
+            else:
+                neg = new_block([assign(dl, {'k': 'aggr', 'ak': {'adt': adt, 'variant': 'None', 'vi': 0}, 'ops': []})], goto_T)
+        elif name == 'map_err':
+            if not is_res:
+                continue
+            tmp = new_local(fcb.d['locals'][0]['ty'])
+            wrap = new_block([assign(dl, {'k': 'aggr', 'ak': {'adt': adt, 'variant': 'Err', 'vi': 1}, 'ops': [{'m': {'l': tmp, 'p': []}}]})], goto_T)
+            neg = call_into(fcb, fkind, fop, [payload('Err', 1)], tmp, wrap)
+            pos = new_block([assign(dl, {'k': 'aggr', 'ak': {'adt': adt, 'variant': 'Ok', 'vi': 0}, 'ops': [payload('Ok', 0)]})], goto_T)
+        else:  # is_some_and / is_none_or / is_ok_and / is_err_and: the predicate decides for one variant, a constant for the other
+            true_ = {'k': {'ty': 'bool', 'int': '1', 'v': 'true'}}
+            false_ = {'k': {'ty': 'bool', 'int': '0', 'v': 'false'}}
+            if name in ('is_some_and', 'is_ok_and'):
+                pos = call_into(fcb, fkind, fop, [payload(pos_name, pos_vi)], dl, T)
+                neg = new_block([assign(dl, {'k': 'use', 'op': false_})], goto_T)
+            elif name == 'is_none_or':
+                pos = call_into(fcb, fkind, fop, [payload(pos_name, pos_vi)], dl, T)
+                neg = new_block([assign(dl, {'k': 'use', 'op': true_})], goto_T)
+            else:  # is_err_and
+                neg = call_into(fcb, fkind, fop, [payload('Err', 1)], dl, T)
+                pos = new_block([assign(dl, {'k': 'use', 'op': false_})], goto_T)
         dsc = new_local('isize')
         B[bb] = dict(B[bb], stmts=B[bb]['stmts'] + [assign(dsc, {'k': 'discr', 'pl': {'l': sp['l'], 'p': []}, 'ty': adt + '<_>'})],
                      term={'k': 'switch', 'op': {'m': {'l': dsc, 'p': []}}, 'arms': [[str(pos_vi), pos]], 'otherwise': neg})
